@@ -961,6 +961,22 @@ func (r *stateResolverV2) mainlineOrdering(events []PDU) []PDU {
 	return result
 }
 
+// createEventFromAuthEvents returns the create event that the given event is
+// or references in its auth events, if it is known, or nil otherwise.
+func (r *stateResolverV2) createEventFromAuthEvents(event PDU) PDU {
+	if event.Type() == spec.MRoomCreate && event.StateKeyEquals("") {
+		return event
+	}
+	for _, authID := range event.AuthEventIDs() {
+		if authEvent, ok := r.authEventMap[authID]; ok && authEvent != nil {
+			if authEvent.Type() == spec.MRoomCreate && authEvent.StateKeyEquals("") {
+				return authEvent
+			}
+		}
+	}
+	return nil
+}
+
 // getPowerLevelFromAuthEvents tries to determine the effective power level of
 // the sender at the time that of the given event, based on the auth events.
 // This is used in the Kahn's algorithm tiebreak.
@@ -971,11 +987,16 @@ func (r *stateResolverV2) getPowerLevelFromAuthEvents(event PDU) int64 {
 		// get the create event
 		createEvent := r.resolvedCreate
 		if createEvent == nil {
-			panic("getPowerLevelFromAuthEvents: missing resolved create event, cannot calculate PL of sender!")
+			// No create event has been resolved yet, e.g. because state resolution
+			// v2.1 starts from the empty state. Fall back to the create event that
+			// the event itself references (or is).
+			createEvent = r.createEventFromAuthEvents(event)
 		}
-		for _, creator := range CreatorsFromCreateEvent(createEvent) {
-			if creator == string(user) {
-				return CreatorPowerLevel
+		if createEvent != nil {
+			for _, creator := range CreatorsFromCreateEvent(createEvent) {
+				if creator == string(user) {
+					return CreatorPowerLevel
+				}
 			}
 		}
 		// otherwise they aren't a creator, so check the PL event.
